@@ -137,7 +137,7 @@ SpecOf(c) == [b \in 1..((N \div 2) + 1) |-> QSum({p \in DOMAIN c : BinP(p) = b -
 InBand(p, lo, hi) == VMaxAbs(p) >= lo /\ VMaxAbs(p) <= hi
 BandSq(U, lo, hi) == QSumSeq([c \in 1..Len(U) |-> QSum({p \in DOMAIN U[c] : InBand(p, lo, hi)}, LAMBDA p : CAbs2(U[c][p]))])
 GradSq(U) == QSumSeq([c \in 1..Len(U) |-> QSum(DOMAIN U[c], LAMBDA p : QMul(QInt(VSq(p)), CAbs2(U[c][p])))])
-CoefOf(c) == LET h == Half(c) IN [s \in DOMAIN h |-> CScale(<<DenCoef(D, N, s), IPow(N, D)>>, h[s])]
+CoefOf(c) == LET h == Half(c) IN [s \in DOMAIN h |-> CScale(Q(DenCoef(D, N, s), IPow(N, D)), h[s])]
 
 \* ---------------------------------------------------------------- initial states and actions
 Lo(n) == -(n \div 2)
